@@ -8,7 +8,7 @@ def run(ctx):
     repo = Repo(ctx.dev)
     r_norm, N = norm.rule_norm("C16", repo)
     rules = [field.rule_pure("C16", repo), r_norm, norm.rule_id_guard("C16", repo, N), weight.rule_weight_group("C16", repo), weight.rule_weight_lines("C16", repo),
-             norm.rule_prep_immut("C16", repo)]
+             norm.rule_prep_immut("C16", repo), field.rule_tower_consts("C16", repo)]
     return report.emit(
         "C16", ctx.tier, ctx.seed, rules, ctx.started,
         "For all histories: (i) effect analysis — no mutable statics, only lazy_static cells with closed literal initialisers, Copy+Freeze value types, RNG only by parameter, no unsafe — "
